@@ -104,7 +104,7 @@ def gen_ast(rng):
     nested_index = rng.random() < 0.08  # the tile offset is computed inside a region of an index op (an scf.if yielding it)
     carried_off = rng.random() < 0.08  # the tile offset is carried through the loop as an iter_arg and advanced among the index ops
     init_acc = rng.random() < 0.08 and accumulator is None  # one buffer is written by two stages: initialised, then accumulated into
-    return {"nst": nst, "tmps": ntmp, "skip": skip is not None, "tail": tail, "ring": ring, "post": post, "alias": alias, "lb_shared": lb_shared, "alloc_in_loop": alloc_in_loop and alias is None and post is None and not scratch_views, "scratch_views": scratch_views and alias is None and post is None, "accumulator": accumulator, "same_array": same_array, "alias_inner": alias_inner, "init_acc": init_acc, "carried_off": carried_off, "nested_index": nested_index and not carried_off, "outer": outer, "const_bounds": rng.random() < 0.75, "stages": stages}
+    return {"nst": nst, "tmps": ntmp, "skip": skip is not None, "tail": tail, "ring": ring, "post": post, "alias": alias, "lb_shared": lb_shared, "alloc_in_loop": alloc_in_loop and alias is None and post is None and not scratch_views, "scratch_views": scratch_views and alias is None and post is None, "accumulator": accumulator, "same_array": same_array, "alias_inner": alias_inner, "init_acc": init_acc, "carried_off": carried_off, "nested_index": nested_index and not carried_off, "outer": outer, "const_bounds": rng.random() < 0.75, "dyn_ub": rng.random() < 0.5, "stages": stages}
 
 
 TVS = 'memref<' + str(E) + 'xi32, strided<[1], offset: {off}>, "L1">'
@@ -149,6 +149,11 @@ def emit(ast, env=None) -> str:
         e(f'    %ub = arith.constant {env["ub"]} : index')
         e(f'    %st = arith.constant {env["step"]} : index')
         lb, ub, st = "%lb", "%ub", "%st"
+    elif ast.get("dyn_ub"):
+        # the common run-time sized loop: from 0 in steps of 1 up to a bound that is only known at run time
+        e("    %lb = arith.constant 0 : index")
+        e("    %st = arith.constant 1 : index")
+        lb, ub, st = "%lb", "%uba", "%st"
     else:
         lb, ub, st = "%lba", "%uba", "%sta"
     if ast.get("scratch_views"):
